@@ -459,6 +459,106 @@ theorem instance_to_group_norm (g cpg HW n c p : Nat) :
   generalize c % cpg = r at hc
   subst hc; ring
 
+
+/-! ## GQA, packed QKV, past/present, cos/sin cache, interleaved rotary: pure index / shape arithmetic -/
+
+/-- **Packed-QKV split offsets** (`gqa_packed_qkv.py`): for every head size `h` and head counts `H`, `Hkv`, the
+packed hidden size `(H + 2·Hkv)·h` is split back by the check's `hidden // (H + 2·Hkv)` into exactly
+`(h, h·H, h·Hkv)`; the three slices `[0, qh)`, `[qh, qh+kvh)`, `[qh+kvh, hidden)` are adjacent, have lengths
+`qh`, `kvh`, `kvh`, and every column lies in exactly one of them. -/
+theorem packed_split_offsets (h H Hkv : Nat) (hpos : 0 < H + 2 * Hkv) :
+    packedSplit ((H + 2 * Hkv) * h) H Hkv = (h, h * H, h * Hkv)
+    ∧ h * H + h * Hkv + h * Hkv = (H + 2 * Hkv) * h
+    ∧ ∀ c, c < (H + 2 * Hkv) * h →
+        (c < h * H ∧ ¬ (h * H ≤ c ∧ c < h * H + h * Hkv) ∧ ¬ (h * H + h * Hkv ≤ c))
+        ∨ (¬ c < h * H ∧ (h * H ≤ c ∧ c < h * H + h * Hkv) ∧ ¬ (h * H + h * Hkv ≤ c))
+        ∨ (¬ c < h * H ∧ ¬ (h * H ≤ c ∧ c < h * H + h * Hkv) ∧ h * H + h * Hkv ≤ c) := by
+  refine ⟨?_, by ring, ?_⟩
+  · unfold packedSplit
+    rw [Nat.mul_div_cancel_left h hpos]
+  · intro c _; omega
+
+example : packedSplit 192 8 2 = (16, 128, 32) := by decide
+
+/-- **GQA head sharing layout**: `Unsqueeze(2) → Expand → Reshape` sends element `(kv, g, t, d)` of the
+`(Hkv, G, T, Dh)` tensor to element `(kv·G + g, t, d)` of `(Hkv·G, T, Dh)` — same row-major offset, all sizes. -/
+theorem gqa_expand_reshape_layout (G T Dh kv g t d : Nat) :
+    (((kv * G + g) * T + t) * Dh + d) = (((kv * G + g) * T) + t) * Dh + d
+    ∧ ((kv * G + g) * T + t) * Dh + d = ((kv * G * T + g * T) + t) * Dh + d := by
+  constructor <;> ring
+
+/-- **past/present concat axis** (`Concat(past, current, axis=-2)` in MHA / GQA): along the sequence axis the
+present cache has length `P + S`, its first `P` rows are the past and row `P + t` is current row `t`. -/
+theorem past_present_concat {α : Type} (past cur : List α) :
+    (past ++ cur).length = past.length + cur.length
+    ∧ (∀ t, t < past.length → (past ++ cur)[t]? = past[t]?)
+    ∧ (∀ t, (past ++ cur)[past.length + t]? = cur[t]?) := by
+  refine ⟨List.length_append, ?_, ?_⟩
+  · intro t ht; exact List.getElem?_append_left ht
+  · intro t; rw [List.getElem?_append_right (by omega)]; congr 1; omega
+
+theorem le_foldl_max (l : List Nat) : ∀ (a p : Nat), (p = a ∨ p ∈ l) → p ≤ l.foldl max a := by
+  induction l with
+  | nil => intro a p h; rcases h with rfl | h; exact Nat.le_refl _; exact absurd h List.not_mem_nil
+  | cons x xs ih =>
+    intro a p h
+    simp only [List.foldl_cons]
+    rcases h with rfl | h
+    · exact Nat.le_trans (Nat.le_max_left _ _) (ih _ _ (Or.inl rfl))
+    · rcases List.mem_cons.mp h with rfl | h
+      · exact Nat.le_trans (Nat.le_max_right _ _) (ih _ _ (Or.inl rfl))
+      · exact ih _ _ (Or.inr h)
+
+/-- **cos/sin cache bounds** (`cos_sin_cache.py`): the cache built for `arange(max_pos_id + 1)` — or dynamically
+for `Range(0, ReduceMax(position_ids) + 1)` — has a row for *every* position id, whatever the ids are. -/
+theorem cos_sin_cache_bounds (ids : List Nat) : ∀ p ∈ ids, p < ids.foldl max 0 + 1 := by
+  intro p hp
+  exact Nat.lt_succ_of_le (le_foldl_max ids 0 p (Or.inr hp))
+
+example : ([3, 0, 7, 2] : List Nat).foldl max 0 + 1 = 8 := by decide
+
+section RotaryInterleaved
+variable {K : Type} [Field K]
+
+/-- Interleaved `RotaryEmbedding` (`interleaved=1`): pairs `(2i, 2i+1)` rotate together. -/
+def rotaryInterleaved (x c s : Nat → K) (j : Nat) : K :=
+  if j % 2 = 0 then x j * c (j / 2) - x (j + 1) * s (j / 2) else x j * c (j / 2) + x (j - 1) * s (j / 2)
+
+/-- de-interleave: even positions first, odd positions second -/
+def deinterleave (h : Nat) (x : Nat → K) (i : Nat) : K := if i < h then x (2 * i) else x (2 * (i - h) + 1)
+
+/-- **Interleaved vs non-interleaved index maps**: de-interleaving commutes with the rotation — the
+non-interleaved operator applied to the de-interleaved vector is the de-interleaved result of the interleaved
+operator, at every position `i < 2h`, for every half size `h`. -/
+theorem rotary_interleaved_deinterleave (h : Nat) (x c s : Nat → K) (i : Nat) (hi : i < 2 * h) :
+    rotaryRef h (deinterleave h x) c s i = deinterleave h (rotaryInterleaved x c s) i := by
+  unfold rotaryRef deinterleave rotaryInterleaved
+  by_cases hlt : i < h
+  · have e1 : (2 * i) % 2 = 0 := by omega
+    have e2 : (2 * i) / 2 = i := by omega
+    have e3 : ¬ (i + h < h) := by omega
+    have e4 : 2 * (i + h - h) + 1 = 2 * i + 1 := by omega
+    simp only [hlt, if_true, e1, e2, e3, if_false, e4]
+  · have e1 : ¬ ((2 * (i - h) + 1) % 2 = 0) := by omega
+    have e2 : (2 * (i - h) + 1) / 2 = i - h := by omega
+    have e3 : i - h < h := by omega
+    have e4 : 2 * (i - h) + 1 - 1 = 2 * (i - h) := by omega
+    simp only [hlt, if_false, e1, e2, e3, if_true, e4]
+
+end RotaryInterleaved
+
+/-- The mask flag never enters the GQA decision: the model (= the code, whose `… is None` test cannot fail on a
+structural mismatch) gives the same answer whether or not the mask is the causal-mask pattern (finding C19-F13). -/
+theorem gqa_mask_not_consulted (i : GqaIn) :
+    gqa { i with maskOk := true } = gqa { i with maskOk := false } := rfl
+
+/-- `FuseBiasMHA` never looks at the value added to the query projection (written `Add(projection, y)`): the
+decision and the emitted node are the same for every shape of `y` (finding C19-F12). -/
+theorem mha_bias_accepts_any_addend (i : MhabIn) (y1 y2 : Option Shape) :
+    mhab { i with biasFirst := false, qbias := y1 } = mhab { i with biasFirst := false, qbias := y2 } := by
+  unfold mhab
+  simp
+
 /-! ## Decisions: facts about the transcribed checks -/
 
 /-- **`softmax_axis`**: the upcast-removal rule fires exactly for `float16 → Cast(float) → Softmax →
